@@ -13,6 +13,10 @@ CLAIMED = {
          "backward dependence via normalised term leaves; taint-to-sink with sanitizer facts; guard domination"),
  'C06': ("Static guard-domination inventory over all CheckGroup/CheckElement implementations: every accepting exit is reachable only through each reject clause the property lists (sizes, p=kq+1 / 2q+1 & 7 mod 8, primality, coprimality, generator range/order/distinctness, canonical generator). Decides the refusal half structurally on every path; does not decide acceptance of generated groups.", "§3 C06",
          "must-fact dataflow (guard domination) over type-resolved CFG with term normalisation; sibling clause matrix"),
+ 'C08': ("Static effect analysis of the key-generation protocol: every write of the common key is an initialisation or a multiplication (by an accepted key / by the inverse of a stored key) modulo p, i.e. only commuting updates; the update and the table insertion are dominated by a successful proof-of-knowledge verification of the value multiplied in; removal inverts the stored value, needs a known fingerprint and erases it. Equality of the players' keys then follows from commutativity and is not itself decided.", "§3 C08",
+         "effect classification of all writers of the key member (symbolic values) + guard domination"),
+ 'C07': ("Exact necessary conditions of uniformity decided from the source: n! divides the product of the moduli of the independent draws of the permutation generator for n=2..64 (moduli extracted as expressions), every index derived from a draw is in range, the bounded sampler returns only draws that passed the rejection comparison with a bound k*modulo-1 (finite-domain evaluation with 64-bit wrap-around), wrappers reduce by the requested modulus, the residue sampler reduces mod m and draws >= bits(m)+64 bits. The distribution itself is not decided.", "§3 C07",
+         "finite-domain evaluation of extracted expressions (factorial divisibility, range, rejection bound) + guard facts"),
 }
 NA = {
  'C01': "algebraic identity over runtime group elements for all masking chains; no clause visible in code shape beyond what C03/C05/C08/C12 claim",
